@@ -5,6 +5,7 @@ use biscuit_auth::datalog::{MapKey, SymbolTable, TemporarySymbolTable, Term};
 use std::collections::{BTreeMap, BTreeSet};
 use std::fmt::Write as _;
 
+pub mod auth;
 pub mod datalog;
 pub mod expr;
 
@@ -171,6 +172,27 @@ impl V {
     }
     pub fn from_term_tab(t: &Term, syms: &SymbolTable) -> V {
         V::from_term(t, &|i| syms.get_symbol(i).map(|s| s.to_string()))
+    }
+
+    /// Sets and maps sorted by the canonical order (the derived order of `V`: the engine's
+    /// order of `Term` when strings are interned in byte order).  Used for outputs read back
+    /// from tables whose interning order the harness does not control.
+    pub fn sorted(&self) -> V {
+        match self {
+            V::Set(l) => {
+                let mut v: Vec<V> = l.iter().map(|x| x.sorted()).collect();
+                v.sort();
+                v.dedup();
+                V::Set(v)
+            }
+            V::Array(l) => V::Array(l.iter().map(|x| x.sorted()).collect()),
+            V::Map(m) => {
+                let mut v: Vec<(K, V)> = m.iter().map(|(k, x)| (k.clone(), x.sorted())).collect();
+                v.sort();
+                V::Map(v)
+            }
+            v => v.clone(),
+        }
     }
 
     /// Put literal sets and maps in the implementation's iteration order (by interning
